@@ -236,9 +236,13 @@ func (g *gen) leaf(t typ) node {
 			if g.r.Bool() {
 				return node{"\"str\"", "(EConst (DStr " + q("str") + "))"}
 			}
-			// a bare keyword that is directly a body form of a lambda is a known defect (replaced by a new unbound
-			// global variable the first time it is met): it is written as an argument
-			return node{"(prog1 :kw)", "(EProg1 (EConst (DRaw " + q(":kw") + ")) [])"}
+			// a keyword: evaluates to itself in every position, also as a body form of a lambda or defun (since
+			// repo_fixes/C01-11); fresh names so that no earlier program of the process has met the keyword
+			kw := ":kw"
+			if g.r.Bool() {
+				kw = fmt.Sprintf(":%sk%d", g.prefix, g.r.Intn(3))
+			}
+			return node{kw, "(EConst (DRaw " + q(kw) + "))"}
 		case 2:
 			return g.quoteDatum()
 		case 3:
@@ -298,10 +302,9 @@ func (g *gen) datum(d int) (string, string) {
 func (g *gen) quoteDatum() node {
 	g.h("quote")
 	l, gg := g.datum(3)
-	// the reader macro ' before a number, string, character, t or nil is a known reader defect (the number
-	// becomes a symbol, the others are split in two objects): those atoms are quoted with (quote d)
-	tickOK := strings.HasPrefix(l, "(") || strings.HasPrefix(gg, "DSym") || strings.HasPrefix(l, ":")
-	if tickOK && g.r.Bool() {
+	// ' and (quote d) are the same for every datum (since repo_fixes/C01-8 and C01-9 also before numbers, t, nil,
+	// strings and characters)
+	if g.r.Bool() {
 		return node{"'" + l, "(EQuote (" + gg + "))"}
 	}
 	return node{"(quote " + l + ")", "(EQuote (" + gg + "))"}
@@ -332,7 +335,21 @@ func (g *gen) expr(t typ, d int) node {
 	return g.typed(t, d)
 }
 
+// a test form: now and then it returns several values, the first of which decides (repo_fixes/C01-19)
 func (g *gen) test(d int) node {
+	c := g.testRaw(d)
+	if g.r.Chance(12) {
+		g.h("test-values")
+		junk := g.expr(typ(g.r.Intn(3)), d-2)
+		if g.r.Chance(30) {
+			return node{lisp("values", "nil", junk.L), "(EValues [EConst DNil; " + junk.G + "])"}
+		}
+		return node{lisp("values", c.L, junk.L), "(EValues " + gl(c.G, junk.G) + ")"}
+	}
+	return c
+}
+
+func (g *gen) testRaw(d int) node {
 	if g.r.Chance(70) {
 		ops := []struct{ l, p string }{{"<", "PLt"}, {">", "PGt"}, {"=", "PNumEq"}}
 		o := common.Pick(g.r, ops)
@@ -472,7 +489,7 @@ func bindsG(vs []vinfo, inits []node) string {
 // control forms whose value is the value of an inner expression of type t
 func (g *gen) control(t typ, d int) (node, bool) {
 	nilable := nilableT(t)
-	switch g.r.Intn(27) {
+	switch g.r.Intn(29) {
 	case 0:
 		g.h("progn")
 		b := g.body(t, d, 2)
@@ -610,6 +627,16 @@ func (g *gen) control(t typ, d int) (node, bool) {
 				es = append(es, g.expr(t, d-1))
 			}
 		}
+		if len(es) > 0 && g.r.Chance(40) {
+			// a form before the last that returns several values: or looks at, and returns, the first one only
+			i := g.r.Intn(len(es))
+			if g.r.Bool() {
+				junk := g.expr(tInt, d-2)
+				es[i] = node{lisp("values", "nil", junk.L), "(EValues [EConst DNil; " + junk.G + "])"}
+			} else {
+				es[i] = g.values(t, d-1, true)
+			}
+		}
 		es = append(es, g.expr(t, d-1))
 		return node{lisp("or", joinL(es)), "(EOr " + listG(es) + ")"}, true
 	case 9, 10, 11:
@@ -644,8 +671,28 @@ func (g *gen) control(t typ, d int) (node, bool) {
 		n := g.cnt(4)
 		names := g.freshNames(n)
 		var ve node
-		if g.r.Chance(65) {
-			ve = g.values(tInt, d-1, true)
+		if g.r.Chance(12) {
+			// (or (values e junk) e2): or passes on the first value only of a form that is not its last
+			a, b := g.values(tInt, d-1, true), g.expr(tInt, d-1)
+			if g.r.Bool() {
+				junk := g.expr(tInt, d-2)
+				a = node{lisp("values", "nil", junk.L), "(EValues [EConst DNil; " + junk.G + "])"}
+			}
+			g.h("or-values")
+			ve = node{lisp("or", a.L, b.L), "(EOr " + gl(a.G, b.G) + ")"}
+		} else if ws := g.vars(tInt, 0, true); len(ws) > 0 && g.r.Chance(10) {
+			// (setq x (values e junk)): setq returns the one value it stored
+			g.h("setq-values")
+			w, a := common.Pick(g.r, ws), g.values(tInt, d-1, true)
+			ve = node{lisp("setq", w.name, a.L), fmt.Sprintf("(ESetq [(%s, %s)])", q(w.name), a.G)}
+		} else if g.r.Chance(10) {
+			// (cond ((values e junk))): a clause without forms returns the first value of its test
+			g.h("cond-values")
+			a := g.values(tInt, d-1, true)
+			ve = node{lisp("cond", lisp(a.L)), fmt.Sprintf("(ECond [(%s, [])])", a.G)}
+		} else if g.r.Chance(65) {
+			// the values pass through forms that return what their last form returns (progn, let, let*, a lambda body)
+			ve = g.emptyScopes(g.values(tInt, d-1, true))
 		} else {
 			ve = g.expr(tInt, d-1)
 		}
@@ -676,6 +723,8 @@ func (g *gen) control(t typ, d int) (node, bool) {
 		return g.doWhile(t, d)
 	case 25, 26:
 		return g.loopCapture(t, d)
+	case 27, 28:
+		return g.loopFormCapture(t, d)
 	case 21, 22:
 		return g.shadowCall(t, d)
 	case 23:
@@ -853,6 +902,11 @@ func (g *gen) dolist(t typ, d int) (node, bool) {
 	g.h("dolist")
 	x := g.freshNames(1)[0]
 	l := g.expr(tList, d-1)
+	if g.r.Chance(10) { // the list form returns several values: the first is the list
+		g.h("dolist-values")
+		junk := g.expr(tInt, d-2)
+		l = node{lisp("values", l.L, junk.L), "(EValues " + gl(l.G, junk.G) + ")"}
+	}
 	g.loops++
 	mark := g.push(vinfo{name: x, t: tInt, ro: true})
 	b := g.stmts(2, d)
@@ -884,12 +938,17 @@ func (g *gen) dotimes(t typ, d int) (node, bool) {
 	var n node
 	if g.r.Chance(70) {
 		z := int64(g.cnt(4))
-		if g.r.Chance(4) {
-			z = -1
+		if g.r.Chance(10) { // a negative count: no iteration, the variable ends as 0
+			z = int64(-1 - g.r.Intn(3))
 		}
 		n = node{fmt.Sprint(z), gInt(z)}
 		if g.r.Chance(25) {
 			n = g.tr(n)
+		}
+		if g.r.Chance(12) { // the count form returns several values: the first is the count
+			g.h("dotimes-values")
+			junk := g.expr(tInt, d-2)
+			n = node{lisp("values", n.L, junk.L), "(EValues " + gl(n.G, junk.G) + ")"}
 		}
 	} else if vs := g.vars(tList, 0, false); len(vs) > 0 {
 		v := common.Pick(g.r, vs)
@@ -1011,7 +1070,29 @@ func (g *gen) doLoop(t typ, d int) (node, bool) {
 	default:
 		test = node{lisp("not", lisp("<", cn, fmt.Sprint(limit))), fmt.Sprintf("(EPrim PNot [EPrim PLt [EVar %s; %s]])", q(cn), gInt(limit))}
 	}
-	if g.r.Chance(25) {
+	// an end test that is not a list form: t (the result forms run at once), or a variable of the loop that the
+	// stepping makes true once the counter has passed the limit
+	atomTest := false
+	if g.r.Chance(22) {
+		sn := cn + "s"
+		clash := false
+		for _, b := range bs {
+			clash = clash || b.v.name == sn
+		}
+		switch {
+		case g.r.Chance(25):
+			g.h("do-atom-test:t")
+			test, atomTest = node{"t", "(EConst DT)"}, true
+		case !clash:
+			g.h("do-atom-test:variable")
+			st := node{lisp(">", cn, fmt.Sprint(limit-1)), fmt.Sprintf("(EPrim PGt [EVar %s; %s])", q(cn), gInt(limit-1))}
+			b := bnd{v: vinfo{name: sn, t: tAny, ro: true}, init: node{"nil", "(EConst DNil)"}, step: &st}
+			bs = append(bs, b)
+			g.push(b.v)
+			test, atomTest = node{sn, "(EVar " + q(sn) + ")"}, true
+		}
+	}
+	if g.r.Chance(25) && !(atomTest && g.r.Chance(70)) {
 		test = g.tr(test)
 	}
 	// a variable stepped after the counter reads the counter: do and do* differ; its value is made visible
@@ -1133,6 +1214,21 @@ func (g *gen) typed(t typ, d int) node {
 				k = 2 + g.r.Intn(2)
 			}
 			f := g.fun(k, d-1)
+			if g.r.Chance(25) {
+				// the function returns several values: mapcar collects the first of each call
+				g.h("mapcar-values")
+				ps := g.freshNames(k)
+				mark := len(g.env)
+				for _, p := range ps {
+					g.push(vinfo{name: p, t: tInt})
+				}
+				saveSelf := g.self
+				g.self = nil
+				b := g.values(tInt, d-1, true)
+				g.self = saveSelf
+				g.pop(mark)
+				f = node{lisp("lambda", "("+strings.Join(ps, " ")+")", b.L), fmt.Sprintf("(ELambda %s [%s])", strsG(ps), b.G)}
+			}
 			var ls []node
 			for i := 0; i < k; i++ {
 				ls = append(ls, g.expr(tList, d-1))
@@ -1143,7 +1239,7 @@ func (g *gen) typed(t typ, d int) node {
 	default:
 		switch x := g.r.Intn(100); {
 		case x < 25:
-			return g.test(d)
+			return g.testRaw(d)
 		case x < 33:
 			a := g.expr(tAny, d-1)
 			g.h("prim")
@@ -1557,4 +1653,88 @@ func (g *gen) loopCapture(t typ, d int) (node, bool) {
 	dummy := node{lisp("lambda", "()", "0"), "(ELambda [] [" + gInt(0) + "])"}
 	return node{lisp("let", "("+lisp(acc, e0.L)+" "+lisp(f, dummy.L)+")", joinL(all)),
 		fmt.Sprintf("(ELet [(%s, %s); (%s, %s)] %s)", q(acc), e0.G, q(f), dummy.G, listG(all))}, true
+}
+
+// the value of an integer expression made visible in the trace: (if (< e pivot) (tr a 0) (tr b 1))
+func (g *gen) observeExpr(e node, pivot int64) node {
+	g.k += 2
+	return node{fmt.Sprintf("(if (< %s %d) (tr %d 0) (tr %d 1))", e.L, pivot, g.k-1, g.k),
+		fmt.Sprintf("(EIf (EPrim PLt [%s; %s]) (ETr %d %s) (Some (ETr %d %s)))", e.G, gInt(pivot), g.k-1, gInt(0), g.k, gInt(1))}
+}
+
+// a closure made by the list form of a dolist, the count form of a dotimes or an init form of a do* - before the
+// loop variable of the same name exists - reads and writes the ENCLOSING variable (700..), not the loop variable
+// (below 100): inside the loop, in the result form and after the loop (repo_fixes/C01-12, C01-13); a closure made by
+// the init form of a later do* variable follows the stepping of an earlier one
+func (g *gen) loopFormCapture(t typ, d int) (node, bool) {
+	if g.loops >= maxLoops || d < 3 {
+		return node{}, false
+	}
+	g.h("idiom:closure-in-loop-form")
+	names := g.freshNames(2)
+	v, f := names[0], names[1]
+	z1 := int64(700 + g.r.Intn(50))
+	e1 := node{fmt.Sprint(z1), gInt(z1)}
+	mark := g.push(vinfo{name: v, t: tInt}, vinfo{name: f, t: tFun, arity: 0})
+	var lamBody node
+	if g.r.Bool() {
+		lamBody = node{lisp("setq", v, lisp("+", v, "1")), fmt.Sprintf("(ESetq [(%s, EPrim PAdd [EVar %s; %s])])", q(v), q(v), gInt(1))}
+	} else {
+		lamBody = node{v, "(EVar " + q(v) + ")"}
+	}
+	lam := g.emptyScopes(node{lisp("lambda", "()", lamBody.L), "(ELambda [] [" + lamBody.G + "])"})
+	call := func(name string) node { return node{lisp("funcall", name), fmt.Sprintf("(EFuncall (EVar %s) [])", q(name))} }
+	callF := func() node { return g.observeExpr(call(f), 100) }
+	refV := func() node { return g.observeExpr(node{v, "(EVar " + q(v) + ")"}, 100) }
+	set := node{lisp("setq", f, lam.L), fmt.Sprintf("(ESetq [(%s, %s)])", q(f), lam.G)}
+	var loop node
+	g.loops++
+	switch g.r.Intn(4) {
+	case 0: // dolist: the loop variable is nil in the result form
+		m2 := g.push(vinfo{name: v, t: tInt, ro: true})
+		body := append([]node{callF(), refV()}, g.stmts(1, d-1)...)
+		g.pop(m2)
+		res := callF()
+		loop = node{lisp("dolist", lisp(v, lisp("progn", set.L, "'(4 5)"), res.L), joinL(body)),
+			fmt.Sprintf("(EDolist %s (EProgn [%s; EQuote (DList [DInt 4; DInt 5])]) (Some %s) %s)", q(v), set.G, res.G, listG(body))}
+	case 1:
+		m2 := g.push(vinfo{name: v, t: tInt, ro: true})
+		body := append([]node{callF(), refV()}, g.stmts(1, d-1)...)
+		c1, r1 := callF(), refV() // in the result form the variable is the number of iterations
+		res := node{lisp("progn", c1.L, r1.L), fmt.Sprintf("(EProgn [%s; %s])", c1.G, r1.G)}
+		g.pop(m2)
+		loop = node{lisp("dotimes", lisp(v, lisp("progn", set.L, "2"), res.L), joinL(body)),
+			fmt.Sprintf("(EDotimes %s (EProgn [%s; %s]) (Some %s) %s)", q(v), set.G, gInt(2), res.G, listG(body))}
+	case 2: // do*: a closure made by the init form of a LATER variable sees the earlier variable, also after it is stepped
+		gname := f + "g"
+		m2 := g.push(vinfo{name: v, t: tInt, ro: true}, vinfo{name: gname, t: tFun, arity: 0})
+		callG := func() node { return g.observeExpr(call(gname), 51) }
+		rd := g.emptyScopes(node{lisp("lambda", "()", v), "(ELambda [] [EVar " + q(v) + "])"})
+		body := append([]node{callG(), refV()}, g.stmts(1, d-1)...)
+		rs := []node{callG(), refV()}
+		g.pop(m2)
+		loop = node{lisp("do*", "("+lisp(v, "50", lisp("+", v, "1"))+" "+lisp(gname, rd.L)+")", lisp(lisp(">", v, "51"), joinL(rs)), joinL(body)),
+			fmt.Sprintf("(EDo true [(%s, %s, Some (EPrim PAdd [EVar %s; %s])); (%s, %s, None)] (EPrim PGt [EVar %s; %s]) %s %s)",
+				q(v), gInt(50), q(v), gInt(1), q(gname), rd.G, q(v), gInt(51), listG(rs), listG(body))}
+	default: // do*: the closure is the value of the first variable, made before the second variable exists
+		gname := f + "g"
+		m2 := g.push(vinfo{name: gname, t: tFun, arity: 0}, vinfo{name: v, t: tInt, ro: true})
+		callG := func() node { return g.observeExpr(call(gname), 100) }
+		body := append([]node{callG(), refV()}, g.stmts(1, d-1)...)
+		rs := []node{callG(), refV()}
+		g.pop(m2)
+		keep := node{lisp("setq", f, gname), fmt.Sprintf("(ESetq [(%s, EVar %s)])", q(f), q(gname))}
+		body = append(body, keep)
+		loop = node{lisp("do*", "("+lisp(gname, lam.L)+" "+lisp(v, "50", lisp("+", v, "1"))+")", lisp(lisp(">", v, "51"), joinL(rs)), joinL(body)),
+			fmt.Sprintf("(EDo true [(%s, %s, None); (%s, %s, Some (EPrim PAdd [EVar %s; %s]))] (EPrim PGt [EVar %s; %s]) %s %s)",
+				q(gname), lam.G, q(v), gInt(50), q(v), gInt(1), q(v), gInt(51), listG(rs), listG(body))}
+	}
+	g.loops--
+	after := []node{callF(), refV()}
+	rest := g.body(t, d-1, 1)
+	g.pop(mark)
+	all := append(append([]node{loop}, after...), rest...)
+	dummy := node{lisp("lambda", "()", "0"), "(ELambda [] [" + gInt(0) + "])"}
+	return node{lisp("let", "("+lisp(v, e1.L)+" "+lisp(f, dummy.L)+")", joinL(all)),
+		fmt.Sprintf("(ELet [(%s, %s); (%s, %s)] %s)", q(v), e1.G, q(f), dummy.G, listG(all))}, true
 }
